@@ -54,11 +54,12 @@ type Root struct {
 
 // Disk is the fault state of the simulated file system (one per world; nil = no limits).
 type Disk struct {
-	Roots      []*Root
-	FailMkdirs int // this many of the next MkdirAll calls fail (ENOSPC: no inode / no block for the directory)
-	Stats      struct {
+	Roots        []*Root
+	FailMkdirs   int // this many of the next MkdirAll calls fail (ENOSPC: no inode / no block for the directory)
+	FailReadDirs int // this many of the next ReadDir calls fail (EIO: the directory cannot be listed right now)
+	Stats        struct {
 		Creates, Writes, Closes, Removes, Mkdirs, Opens, ReadDirs uint64
-		ENOSPC, PartialWrites, CreateErrs, MkdirErrs              uint64
+		ENOSPC, PartialWrites, CreateErrs, MkdirErrs, ReadDirErrs uint64
 		BytesWritten                                              uint64
 	}
 }
@@ -139,6 +140,11 @@ func ReadDir(name string) ([]DirEntry, error) {
 	simrt.Yield("os.ReadDir")
 	if disk != nil {
 		disk.Stats.ReadDirs++
+		if disk.FailReadDirs > 0 {
+			disk.FailReadDirs--
+			disk.Stats.ReadDirErrs++
+			return nil, &PathError{Op: "open", Path: name, Err: syscall.EIO}
+		}
 	}
 	return os.ReadDir(name)
 }
